@@ -103,6 +103,16 @@ for c in spec["clients"]:
         port = s.getsockname()[1]
         s.close()
         servers[cid] = None
+    elif c["server"] == "unixstale":
+        # a UNIX-domain socket path that exists but nobody listens on (a stale socket file)
+        import socket
+        path = os.path.join(TMP, "stale%s.sock" % cid)
+        s = socket.socket(socket.AF_UNIX)
+        s.bind(path)
+        s.close()
+        servers[cid] = None
+        clients[cid] = api.connect(path, password=None, factory_class=make_factory(cid), timeout=spec.get("timeout", 8))
+        continue
     else:
         servers[cid] = ScriptedServer(hs(c["server"]))
         port = servers[cid].port
